@@ -326,6 +326,74 @@ def flag_bits_case(ctx, fl):
     ctx.evaluations += max(n - 1, 0)
 
 
+EMPTY_MSG = [((), '00'), ((2,), '02'), ((2, 5), 'fe'), ((1, 8), '81'), ((3,), '7f')]
+
+
+def empty_message_case(ctx, case):
+    """sigfield sets / flags under which the covered message is the empty string: the builder witness still unlocks the
+    sibling lock, another key still does not"""
+    fs, fl = case
+    seed = ctx.seed
+    env.Clock.now = 1_700_000_000
+    n = 0
+    fams = (('single', 'single'), ('single2', 'single2'), ('graftroot-key', 'graftroot'), ('graftap-key', 'graftap'), ('multi', 'multisig'))
+    for wf, lf in fams:
+        for signer, lockkey in (('A', 'A'), ('B', 'A')):
+            n += 1
+            w = (wf, signer, fl, fs, ()) if wf != 'multi' else ('multi', signer + 'C', fl, fs, ())
+            l = (lf, lockkey, fl) if lf != 'multisig' else ('multisig', lockkey + 'C', 2, fl)
+            try:
+                wb, lb = build_witness(seed, w), build_lock(seed, l)
+            except BaseException as e:
+                ctx.violation({'clause': 'builders run', 'family': wf, 'block': 'empty message'}, f'{w} / {l}: {e!r}')
+                continue
+            cache = sigfields(seed, fs)
+            cache['timestamp'] = 1_700_000_000
+            v = run_pair(ctx, wb, lb, cache)
+            ctx.state(('emptymsg', fs, fl, wf, signer))
+            ctx.outcome('em:%s' % (v if type(v) is bool else 'raised'))
+            want = signer == lockkey
+            if v is not want:
+                ctx.violation({'clause': 'exactly the intended holder can unlock', 'witness': wf, 'lock': lf, 'block': 'empty message',
+                               'kind': 'accepts' if v is True else 'rejects'},
+                              f'{w} x {l} (covered message empty): run_auth_scripts {v!r}, statement {want}')
+    ctx.evaluations += max(n - 1, 0)
+
+
+DUP_LOCKS = [('ABA', 2, ('AB', 'BA'), ('A', 'B', 'AC', 'CB')), ('AAB', 1, ('A', 'B'), ('C',)), ('ABCA', 3, ('ABC', 'CBA'), ('AB', 'BC')),
+             ('AA', 1, ('A',), ('B',))]
+
+
+def duplicate_key_case(ctx, case):
+    """a holder listed more than once in make_multisig_lock: m different holders still unlock, fewer or unlisted ones do not
+    (what one holder signing twice achieves on such a lock is left open)"""
+    keys, m, good, bad = case
+    seed = ctx.seed
+    env.Clock.now = 1_700_000_000
+    n = 0
+    for al in ('00', '01'):
+        l = ('multisig', keys, m, al)
+        try:
+            lb = build_lock(seed, l)
+        except BaseException as e:
+            ctx.violation({'clause': 'lock builder runs', 'family': 'multisig', 'block': 'duplicate keys'}, f'{l}: {e!r}')
+            continue
+        for ks, want in [(g, True) for g in good] + [(b, False) for b in bad]:
+            n += 1
+            w = ('multi', ks, al, (1, 2), ())
+            wb = build_witness(seed, w)
+            cache = sigfields(seed, (1, 2))
+            cache['timestamp'] = 1_700_000_000
+            v = run_pair(ctx, wb, lb, cache)
+            ctx.state(('dupkeys', keys, m, al, ks))
+            ctx.outcome('dup:%s' % (v if type(v) is bool else 'raised'))
+            if v is not want:
+                ctx.violation({'clause': 'exactly the intended holder can unlock', 'witness': 'multi', 'lock': 'multisig',
+                               'block': 'duplicate keys', 'kind': 'accepts' if v is True else 'rejects'},
+                              f'signers {ks} on {m}-of-{list(keys)} allowed {al}: run_auth_scripts {v!r}, statement {want}')
+    ctx.evaluations += max(n - 1, 0)
+
+
 def pair_case(ctx, case):
     wi, tier = case
     seed = ctx.seed
@@ -388,6 +456,11 @@ def blocks(tier, seed):
                   'm-of-n for (m, n) in %s: m holders / m-1 holders / nobody / outsider / one holder repeated' % (WIDE,), nshards=len(WIDE)),
             Block('flag_bits', list(FLAG_BITS), flag_bits_case, 'flags %s x 5 signing families x allowed {flag, ~flag, ff} x every sigfield '
                   'changed on the verifier side (all eight present)' % (FLAG_BITS,), nshards=len(FLAG_BITS)),
+            Block('multisig_duplicate_keys', list(DUP_LOCKS), duplicate_key_case,
+                  'make_multisig_lock with a holder listed twice: %s' % ([(k, m) for k, m, _, _ in DUP_LOCKS],), nshards=len(DUP_LOCKS)),
+            Block('empty_covered_message', list(EMPTY_MSG), empty_message_case,
+                  'sigfield sets x flags with an empty covered message %s x 5 signing families x right / wrong key' % (EMPTY_MSG,),
+                  nshards=len(EMPTY_MSG)),
             Block('witness_x_lock_cross_product', [(i, tier) for i in range(nw)], pair_case,
                   '%d witness descriptors x %d lock descriptors x 3 verifier sigfield contexts; every byte of positive witnesses perturbed'
                   % (nw, len(lock_descriptors(flags))), nshards=nw, backstop=3600)]
